@@ -117,6 +117,22 @@ def law_star(B, xs, y):
     return out
 
 
+def _not(p):
+    if isinstance(p, bool):
+        return not p
+    import sx
+    return sx.Not(p)
+
+
+def law_star_absorb(B, xs):
+    """x < one so close to one that the float exp(x) is exactly 1.0 (the absorption class of exp):
+    the least solution of s = 1 + x*s is finite, so star(x) must lie strictly below the infinite element"""
+    O, sr = B.O, B.sr
+    x = B.tensor(xs[:1], ())
+    s = _dense(B, sr.star(x))[0]
+    return [('star_finite_below_one', None, None, (True, _not(O.le(B.const(O.top), s))))]
+
+
 def law_from_int(B, m, n):
     """from_int is the homomorphism from the naturals (m, n: naturals, maybe symbolic)"""
     O, sr = B.O, B.sr
